@@ -67,6 +67,10 @@ CLAIMS = {
          "Decides the structural conditions under which indexed code is found again: stored and looked-up hashes come from the same two functions; reader prefixes are format-prefixes of writer keys and the packed value is decoded with the layout it was encoded with; nothing on the topology/hash path reads a name of the analysed function (the rule that found the closure-parameter-name and recursive-self-name leaks repaired in /repo); admission is inclusive; indexer and matcher consult the same collections. That the self-match confidence is numerically 1.0 is not decided.",
          "Callee names of other package-level functions are part of the call profile by design and outside this check.",
          "DESIGN.md §4 C05"),
+ "C03": ("observed-attribute coverage (read-set) of the renderer's type-switch clauses against the struct definitions of the go/ssa version the target builds against, leaf-rendering ingredient analysis, must-pass-through gating of every normalisation with operator-set and rewrite-table extraction",
+         "Injectivity is a runtime property and is NOT decided; decided are its structural necessary conditions: a clause for every instruction kind observing every exported field (+ result type where not operand-determined), typed constants, package-qualified function references, typed free variables, index-preserving sorts (one known finding: select-case sorting), swap/commutativity/hoisting guarded exactly as their soundness arguments require, no source-carrying function skipped. A change that drops an attribute or widens a guard makes every pair of functions differing only there collide — for all such pairs, which no sampled test can show.",
+         "Attribute observation ≠ injective rendering; the semantic soundness of each normalisation beyond its gating is not decided.",
+         "DESIGN.md §4 C03"),
 }
 
 PENDING_REASON = "static check for this property is not armed yet in this revision of the machinery (see DESIGN.md §4 for the planned structural clauses); not claimed until its rules run silent on the tree and fire on their mutants"
